@@ -96,3 +96,6 @@ Proof.
   - inversion Hk; subst. rewrite cnt_cons, Py. pose proof (cnt_pos P t j x Hj Px). simpl. lia.
   - rewrite cnt_cons. assert (j <> k) by congruence. specialize (IH j k H Hj Hk Px Py). lia.
 Qed.
+
+Lemma upd_upd {A} (l : list A) k x y : upd (upd l k x) k y = upd l k y.
+Proof. revert k; induction l as [|h t IH]; intros [|k]; simpl; auto. f_equal; auto. Qed.
